@@ -7,7 +7,8 @@ pins, pin/wire position 0 is the least significant bit) -> Verilog source text.
 Options (chosen by the model): order ("asis" | "reversed" module order), ansi (bool: ANSI port
 declarations), positional (bool: positional port maps), concat (bool: always write per-bit
 concatenations instead of identifiers / part-selects), escaped (bool: escaped identifiers for
-instance and wire names), comments (bool), celldefine (bool: wrap leaf modules in `celldefine), grouped (bool: header-only style with ONE
+instance and wire names), concatparts (bool: inside concatenations, runs of adjacent
+bits of one net are written as part-selects or whole nets), comments (bool), celldefine (bool: wrap leaf modules in `celldefine), grouped (bool: header-only style with ONE
 declaration for consecutive ports of the same direction and range: "input [1:0] p, q;"), escmod (bool: module
 names written as escaped identifiers, in the declaration and in every instantiation), undeclared (bool: leaf
 modules are not declared at all - the reader has to infer black boxes from the named port maps of their instances).
@@ -155,8 +156,30 @@ def render(st, n, opts=None):
                     cname = refs[0][0]
                     nm = ident(cname, cname not in port_names)
                     if opts.get("concat") or not contiguous:
-                        expr = bitref(bits[0]) if len(bits) == 1 and not opts.get("concat") else \
-                            "{" + ", ".join(bitref(x) for x in reversed(bits)) + "}"
+                        if len(bits) == 1 and not opts.get("concat"):
+                            expr = bitref(bits[0])
+                        elif opts.get("concatparts"):
+                            # members of more than one bit: maximal ascending runs inside one net become part-selects
+                            runs, j = [], 0
+                            while j < len(bits):
+                                k = j
+                                while k + 1 < len(bits) and refs[k + 1][0] == refs[j][0] and refs[j][0] not in CONST \
+                                        and refs[k + 1][1] == refs[k][1] + 1:
+                                    k += 1
+                                if k == j:
+                                    runs.append(bitref(bits[j]))
+                                else:
+                                    cn = refs[j][0]
+                                    nmj = ident(cn, cn not in port_names)
+                                    lo2 = refs[j][3] + refs[j][1]
+                                    if (k - j + 1) == refs[j][2] and refs[j][1] == 0:
+                                        runs.append(nmj)                      # the whole net as one member
+                                    else:
+                                        runs.append("%s[%d:%d]" % (nmj, lo2 + (k - j), lo2))
+                                j = k + 1
+                            expr = "{" + ", ".join(reversed(runs)) + "}"
+                        else:
+                            expr = "{" + ", ".join(bitref(x) for x in reversed(bits)) + "}"
                     elif len(bits) == refs[0][2] and refs[0][1] == 0:
                         expr = nm
                     elif len(bits) == 1:
